@@ -2,21 +2,25 @@
    implementation's observation.  Used by generated case shards. *)
 From TT Require Import Lib.Base Model.Router Model.StreamDecor Spec.C11.
 
-(* a logged entry with its tag reference read in the store at the end of the run *)
-Definition resolve (fin : store) (r : rentry) : entry :=
+(* is the logged reference one of the caller's own set objects (nc: how many the caller owns) *)
+Definition own (nc : nat) (r : tagref) : bool := match r with TLoc l => Nat.ltb l nc | _ => false end.
+
+(* a logged entry with its tag reference read: the caller's own objects in the store right after
+   the call (cur), everything else in the store at the end of the run (fin) *)
+Definition resolve (nc : nat) (cur fin : store) (r : rentry) : entry :=
   match r with
   | RStart => EStart
   | RStop => EStop
   | RFired => EFired
-  | RSt e => ESt (with_tags e (deref fin (v_tags e)))
+  | RSt e => ESt (with_tags e (deref (if own nc (v_tags e) then cur else fin) (v_tags e)))
   end.
+
+Definition to_obs (nc : nat) (fin : store) (os : list (list rentry) * store) : step_obs :=
+  {| s_raised := false; s_new := map (map (resolve nc (snd os) fin)) (fst os); s_caller := firstn nc (snd os) |}.
 
 Definition model (i : input) : obs :=
   let fin := final_store (tree i) (ops i) (caller i) in
-  {| o_steps := map (fun os => {| s_raised := false;
-                                  s_new := map (map (resolve fin)) (fst os);
-                                  s_caller := firstn (length (caller i)) (snd os) |})
-                    (run (tree i) (ops i) (caller i)) |}.
+  {| o_steps := map (to_obs (length (caller i)) fin) (run (tree i) (ops i) (caller i)) |}.
 
 Definition step_obs_eqb (a b : step_obs) : bool :=
   Bool.eqb (s_raised a) (s_raised b)
